@@ -12,19 +12,104 @@ PROPS = {
     "C01": dict(
         level="proof",
         technique="Verus contracts (requires/ensures/loop invariants) on regret.rs functions extracted from /repo each run; idealised-real floats",
-        level_text="Deductive proof (Verus, unbounded trees) on the real text of regret::expected and regret::next_infoset_search: "
-                   "the reported utility equals the expectation of the tree under the profile and chance distribution, and the "
-                   "continuation value used by the best-response pass equals its recursive definition. SplitsBy::next partition "
-                   "contract covers how get_info cuts the dense vector. Partial: see level_note.",
-        level_note="Assumes wf_game from from_root, idealised-real arithmetic, termination unproved; the global order argument of "
-                   "optimal_deviations (every infoset resolved after its successors) is NOT proved.",
+        level_text="Deductive proof (Verus, trees and infosets of any size) on the real text of regret.rs: expected() returns the "
+                   "expectation of the tree under the profile and chance distribution; next_infoset_search() returns the recursive "
+                   "continuation value; one resolution step of optimal_deviations stores max_a sum_n reach(n) val(child_a(n)) / "
+                   "sum_n reach(n), decrements the predecessor's pending count by the number of resolved nodes and enqueues it exactly "
+                   "at zero; regret() combines them with the right strategies, signs and clamps. Accessors (negated utility, max of "
+                   "regrets) are loop-free Kani proofs over all f64. Partial: see level_note.",
+        level_note="Assumes wf_game from from_root, idealised-real arithmetic, termination unproved. NOT proved: the first pass of "
+                   "optimal_deviations, the seeding of its queue, and the global order argument (step contract only); a bounded "
+                   "Kani harness on one concrete tree exists in the thorough tier only (tree walkers exhaust CBMC).",
         verus=[
             U("c01_expected", ["C01.V.expected.value"]),
             U("c01_next_infoset_search", ["C01.V.next_infoset_search.value", "C01.V.next_infoset_search.queue_empty"]),
+            U("c01_optdev_resolve", ["C01.V.optimal_deviations.best_action_value", "C01.V.optimal_deviations.pending_count", "C01.V.optimal_deviations.nodes_consumed"]),
+            U("c01_regret_wrapper", ["C01.V.regret.utility", "C01.V.regret.player_one", "C01.V.regret.player_two"]),
             U("split_by", ["V.SplitsBy.next.partition"]),
         ],
+        kani_functions=["src/lib.rs :: impl StrategiesInfo / fn player_utility, player_regret, regret", "src/lib.rs :: impl PlayerNum / fn ind, ind_mut"],
         trusted_base=[FLOAT_IDEAL, WF_GAME],
-        not_decided=["bottom-up resolution loop of optimal_deviations (global order argument)"],
+        not_decided=["global order argument of optimal_deviations (every infoset resolved after all later infosets of the same player): only the per-step contract is proved",
+                     "first pass of optimal_deviations (collection of reached nodes and pending counts) and the seeding of the resolution queue (iterator chains)",
+                     "Strategies::get_info composition of split_by with collect (read)"],
+    ),
+    "C02": dict(
+        level="proof",
+        technique="Kani harnesses on cum_regret / RegretBound (bit-precise) + Verus contracts on advance() order; the CFR regret theorem itself is cited mathematics",
+        level_text="What contracts decide is that the code computes exactly the quantity the CFR theorem bounds: cum_regret == "
+                   "2*max(max R,0)/T, non-negative, regrets unchanged (Kani, cvc5, all finite f64, lengths 1..3 = bounded); "
+                   "advance() reports the bound of the regrets after discounting with the caller's iteration number (Verus, any length); "
+                   "RegretBound::regret_bound is the IEEE max of the two per-player bounds (loop-free Kani over all f64 pairs = proof).",
+        level_note="The inequality bound >= true regret is Zinkevich et al. 2007 (trusted mathematics, not mechanised). The per-player "
+                   "sum over infosets inside the solver loops is abstracted (R6) in the C09 slices. Counterfactual weighting: see C08.",
+        verus=[U("c08_advance_order", ["C02.V.advance.reports_bound"])],
+        kani_functions=["src/solve/data.rs :: impl RegretParams / fn cum_regret", "src/lib.rs :: impl RegretBound / fn new, player_regret_bound, regret_bound"],
+        trusted_base=["CFR regret theorem (Zinkevich et al. 2007, Thm 3-4)"],
+        not_decided=["the inequality itself", "sum of per-infoset bounds per player (iterator chain inside the solver loops)"],
+    ),
+    "C05": dict(
+        level="proof",
+        technique="Verus contract on avg_strat (idealised reals, any length) + bit-precise Kani harnesses on every numeric leaf (bounded lengths)",
+        level_text="Verus, any number of actions: avg_strat divides every entry by the total so that the returned probabilities sum "
+                   "to one, and returns exactly uniform when nothing was accumulated. Kani, bit-precise, lengths 1..3, all finite "
+                   "inputs: avg_strat / regret_match (all five branches incl. softmax with either sign of the weight) return finite "
+                   "entries in [0,1] with a positive entry and never panic; cum_regret is finite and non-negative; a fresh infoset is uniform.",
+        level_note="Leaf totality only: absence of panics in the tree recursion, hangs, deadlock and lock poisoning are not decided; "
+                   "solve()'s thread-count error logic is read, not proved (Kani ICE on Game::solve, Verus lacks NonZero/rayon specs). exp is a "
+                   "sound interval model in the softmax harness.",
+        verus=[U("c05_avg_strat", ["C05.V.avg_strat.sums_to_one", "C05.V.avg_strat.normalised", "C05.V.avg_strat.uniform_when_empty"])],
+        kani_functions=["src/solve/data.rs :: fn avg_strat", "src/solve/data.rs :: impl RegretParams / fn regret_match", "src/solve/data.rs :: impl RegretInfoset / fn new"],
+        trusted_base=[FLOAT_IDEAL, "interval model of f64::exp"],
+        not_decided=["whole-run totality on arbitrary trees, hangs, deadlock", "Game::solve thread-count dispatch"],
+    ),
+    "C06": dict(
+        level="proof",
+        technique="Verus loop invariant on a statement-table slice of solve_generic_multi's scope body (workspace freshness)",
+        level_text="Necessary condition only. Deductive proof (any budget) that at the head of every iteration the frontier queue, "
+                   "the next-level work list and the payoff cache are empty, i.e. thread_threshold's precondition holds at its call "
+                   "site and no stale cached payoff can cut the traversal.",
+        level_note="Schedule independence is NOT decided (no thread reasoning in Verus/Kani). thread_threshold, par_drain/par_extend are "
+                   "assumed contracts restating the anchor / rayon documentation.",
+        verus=[U("c06_generic_multi_fresh", ["C06.V.solve_generic_multi.workspace_fresh"])],
+        trusted_base=["assumed contracts on thread_threshold and rayon (prelude/workspace.rs)"],
+        not_decided=["races between worker tasks, atomic add ordering, equality up to summation order"],
+    ),
+    "C07": dict(
+        level="proof",
+        technique="Verus contracts on slices of external::single_player_iter / solve_external_multi / solve_generic_multi (workspace freshness) + cache contracts",
+        level_text="Necessary conditions only. Deductive proof that single_player_iter re-establishes an empty workspace (queue, work, "
+                   "payoffs), that solve_external_multi's loop preserves it from Workspace::with_capacity, that the chance-sampled parallel "
+                   "path does the same, and that each chance infoset / opponent infoset draws at most once per pass and is re-armed by "
+                   "reset()/advance().",
+        level_note="Schedules and the uniqueness of the visit behind try_lock().unwrap() are NOT decided.",
+        verus=[U("c07_external_fresh", ["C07.V.single_player_iter.workspace_fresh", "C07.V.solve_external_multi.workspace_fresh"]),
+               U("c06_generic_multi_fresh", ["C06.V.solve_generic_multi.workspace_fresh"]),
+               U("c10_sampled_chance", ["C10.V.sampled_chance.cache_hit", "C10.V.sampled_chance.reset"]),
+               U("c10_cached_infoset", ["C10.V.cached_infoset.cache_hit"]),
+               U("c08_advance_order", ["C10.V.cached_infoset.advance_resets_draw"])],
+        trusted_base=["assumed contracts on thread_threshold and rayon (prelude/workspace.rs)"],
+        not_decided=["schedules", "try_lock uniqueness on arbitrary trees"],
+    ),
+    "C08": dict(
+        level="proof",
+        technique="Verus contracts on gen_discount / discount_* / advance / update_cum_strat / external recurse (extracted each run) + Kani harnesses on presets, constructor, regret_match",
+        level_text="Per function: gen_discount returns t^a/(t^a+1) (idealised reals, real-analysis axioms) and 0, 1/2, 1 at -inf, 0, "
+                   "+inf (Kani, all u64 t); discount_cum_regret / discount_average_strat apply exactly the documented factor to exactly "
+                   "the documented entries (Verus, any length); advance() matches on the pre-discount regrets, then discounts, with the "
+                   "caller's iteration number (t-1 for the first external player's average); average-strategy accumulation and the "
+                   "external regret update are the documented sums; presets and the constructor are loop-free Kani proofs; regret_match "
+                   "branches are bounded Kani harnesses.",
+        level_note="Equality of whole trajectories with a reference solver is NOT decided; recurse_player's counterfactual weighting and "
+                   "recurse_regret's sign flip are read, not proved (generic Add items / RefCell-Mutex-generic recursion).",
+        verus=[U("c08_discount", ["C08.V.gen_discount.value", "C08.V.discount_cum_regret", "C08.V.discount_average_strat.ratio"]),
+               U("c08_advance_order", ["C08.V.advance.match_before_discount", "C08.V.advance.discount_regrets", "C08.V.advance.discount_average"]),
+               U("c08_update_cum_strat", ["C08.V.update_cum_strat.vanilla", "C08.V.update_cum_strat.external"]),
+               U("c08_external_recurse", ["C08.V.external.recurse"])],
+        kani_functions=["src/solve/data.rs :: impl RegretParams / fn new, vanilla, lcfr, cfr_plus, dcfr, dcfr_prune, gen_discount, regret_match, discount_cum_regret, discount_average_strat",
+                        "src/solve/data.rs :: impl Default for RegretParams"],
+        trusted_base=[FLOAT_IDEAL, "real-analysis axioms for exp/ln, logaddexp documentation"],
+        not_decided=["recurse_player (counterfactual reach and player-two sign)", "recurse_regret sign flip", "whole-trajectory equality"],
     ),
     "C09": dict(
         level="proof",
@@ -56,7 +141,10 @@ PROPS = {
         verus=[
             U("c10_multinomial", ["C10.V.multinomial.inverse_cdf", "C10.V.multinomial.new_drops_last"]),
             U("c10_sampled_chance", ["C10.V.sampled_chance.cache_hit", "C10.V.sampled_chance.cache_fill", "C10.V.sampled_chance.reset"]),
+            U("c10_cached_infoset", ["C10.V.cached_infoset.cache_hit", "C10.V.cached_infoset.draws_from_current_strategy"]),
+            U("c08_advance_order", ["C10.V.cached_infoset.advance_resets_draw"]),
         ],
+        kani_functions=["src/solve/multinomial.rs :: impl Distribution<usize> for Multinomial / fn sample"],
         trusted_base=[FLOAT_IDEAL, "rand::Rng::gen, rand_distr::WeightedAliasIndex (assumed contracts)"],
         not_decided=["recurse_regret's choice of enumerated vs sampled player", "statistical correctness of the alias sampler"],
     ),
@@ -69,6 +157,7 @@ PROPS = {
         level_note="Representation invariant assumed at method entry (constructor + preservation proved). Action iterator "
                    "(find/filter/count chains) handled by bounded Kani harnesses.",
         verus=[U("c13_named_iter", ["C13.V.NamedStrategyIter.exact_size", "C13.V.NamedStrategyIter.kth_block"])],
+        kani_functions=["src/lib.rs :: impl Strategies / fn as_named", "src/lib.rs :: impl Iterator for NamedStrategyActionIter / fn next, size_hint"],
         trusted_base=["representation-invariant induction (constructor + preservation + field privacy)"],
         not_decided=["round trip through the hashing importer"],
     ),
@@ -86,23 +175,41 @@ PROPS = {
         trusted_base=["uninterpreted float semantics in the Verus unit"],
         not_decided=["idempotence and sum-to-one up to rounding at the bit level"],
     ),
+    "C14": dict(
+        level="model_checking",
+        technique="Kani harnesses on the real strat_into_box_slow against a reference model written from the property (bounded input shapes, all f64 weights)",
+        level_text="Bounded, bit-precise: for two input shapes (2 entries x 1 pair, 1 entry x 2 pairs; names from a 6-value "
+                   "alphabet; every f64 weight) the scan-based import succeeds exactly when all rules hold, an error carries the kind of "
+                   "a violated rule, zero/unspecified/overridden-by-zero actions end exactly 0, last write wins for the support.",
+        level_note="Only the scan-based path (from_named_eq). The hash-based twin strat_into_box and hence 'both paths agree' are NOT "
+                   "decided (nested HashMap: Kani infeasible, Verus rejects the iterator chains). Normalised values beyond the support are "
+                   "not compared (float division miters exhaust CBMC). Legal weights above 1e300 excluded (total overflow).",
+        verus=[],
+        kani_functions=["src/lib.rs :: impl Game / fn strat_into_box_slow"],
+        not_decided=["strat_into_box (hash path) and agreement of the two paths", "exact normalised values"],
+    ),
+    "C19": dict(
+        level="model_checking",
+        technique="Kani harnesses on the real Strategies::distance (bounded game, bit-precise, powf modelled exactly for p in {1,2})",
+        level_text="Bounded (one 2-action infoset / a player without infosets; entries any f64 in [0,1]; p in {1,2}): never NaN, "
+                   "non-negative, zero for coinciding profiles, positive when they differ (p=1), panics for other games and for !(p>0); "
+                   "symmetry and the upper range on the grid {0,1/4,..,1} (full domain in the thorough tier). The upper bound 1 is a KNOWN "
+                   "FINDING (disjoint supports give 2).",
+        level_note="powf replaced by exact models x and x*x; p restricted to {1,2}.",
+        verus=[],
+        kani_functions=["src/lib.rs :: impl Strategies / fn distance"],
+        not_decided=["p outside {1,2}", "games with more infosets"],
+    ),
 }
 
-KANI_PROPS = ["C18"]
+KANI_PROPS = ["C01", "C02", "C05", "C08", "C10", "C13", "C14", "C18", "C19"]
 
 NOT_APPLICABLE = {
-    "C02": "check not built yet (planned: Kani contracts on cum_regret / advance / RegretBound)",
     "C03": "analytic convergence-rate theorem over unbounded float histories; no per-call contract expresses it",
     "C04": "probabilistic convergence; neither Verus nor Kani has a probability semantics",
-    "C05": "check not built yet",
-    "C06": "check not built yet",
-    "C07": "check not built yet",
-    "C08": "check not built yet",
     "C11": "from_root recursion through IndexMap/HashMap/HashSet entry APIs is outside both tools (Kani times out on a 5-node tree, Verus cannot specify the crates in single-file mode)",
     "C12": "relational property over two constructions and two whole solves; needs C11 plus whole-solver functional correctness",
-    "C14": "check not built yet",
     "C15": "process-level output of the binary; logic inline in main() behind clap/serde/gambit-parser",
     "C16": "option plumbing inline in main(); process-level behaviour",
     "C17": "exit status / stderr of a process; not a property of one call",
-    "C19": "check not built yet",
 }
